@@ -170,6 +170,13 @@ func runCase(res *vkit.Result, c Case) {
 		decoded = pc.NewRPSSchedule
 		perTokens = schedule.NewConst(rate, d1).Left() + schedule.NewConst(rate, d2).Left()
 	}
+	if (c.Scenario == "free" || c.Scenario == "free-short") && c.Seed%3 == 1 {
+		// a finite supply that is more than the run can use, queued at once: the provider's Run
+		// returns while the startup profile has hardly begun — which is not "ammo ran out"
+		prov.Items = total*perTokens + 64
+		prov.Buffer = prov.Items
+		res.Count("cases_with_supply_queued_at_once", 1)
+	}
 	var smu sync.Mutex
 	byGoid := map[int64]*vkit.RecSchedule{}
 	var shared *vkit.RecSchedule
